@@ -43,9 +43,38 @@ def _proto(scn):
     return None if p in ('None', None) else p
 
 
+def rp_dumps(rp, scn, obj, **kw):
+    """remote_pickle.dumps, or - scn.api = "file" - remote_pickle.dump into a file object."""
+    if scn.get('api') == 'file':
+        f = io.BytesIO()
+        rp.dump(obj, f, **kw)
+        return f.getvalue()
+    return rp.dumps(obj, **kw)
+
+
+def rp_loads(rp, scn, data, patches=None):
+    if scn.get('api') == 'file':
+        return rp.load(io.BytesIO(data), patches) if patches else rp.load(io.BytesIO(data))
+    return rp.loads(data, patches) if patches else rp.loads(data)
+
+
+def std_roundtrip(scn, obj, proto):
+    """The oracle: pickle.dumps/loads, or pickle.dump/load for the file api."""
+    if scn.get('api') == 'file':
+        f = io.BytesIO()
+        pickle.dump(obj, f, protocol=proto)
+        return f.getvalue(), pickle.load(io.BytesIO(f.getvalue()))
+    data = pickle.dumps(obj, protocol=proto)
+    return data, pickle.loads(data)
+
+
 def _bind(cls):
     cls.__module__ = __name__
     cls.__qualname__ = cls.__name__
+    f = cls.__dict__.get('__new__')
+    f = getattr(f, '__func__', f)
+    if f is not None and '<locals>' in getattr(f, '__qualname__', ''):
+        f.__qualname__, f.__module__ = cls.__name__ + '.__new__', __name__
     setattr(_ME, cls.__name__, cls)
     return cls
 
@@ -90,9 +119,16 @@ def _make_falsy_opt(name, marker, fs):
     def __getnewargs__(self):
         return (self.val, self.w)
 
+    def __getnewargs_ex__(self):          # fs = xa: args only | xk: args and kwargs | xo: kwargs only
+        if fs == 'xa':
+            return ((self.val, self.w), {})
+        if fs == 'xk':
+            return ((self.val,), {'w': self.w})
+        return ((), {'val': self.val, 'w': self.w})
+
     def __getstate__(self, remote=False):
         _event(('gs', self.__dict__.get('val'), 'T' if remote is True else ('F' if remote is False else repr(remote))))
-        return type(FALSY[fs])(FALSY[fs]) if fs == 'd0' else FALSY[fs]
+        return {} if fs in ('d0', 'xa', 'xk', 'xo') else FALSY[fs]
 
     def __setstate__(self, st):
         _event(('ss', self.__dict__.get('val')))
@@ -100,11 +136,17 @@ def _make_falsy_opt(name, marker, fs):
             raise Injected('injected failure in __setstate__ of %r' % (self.__dict__.get('val'),))
         if isinstance(st, dict):
             self.__dict__.update(st)
-        self.__dict__['got'] = _fs_name(st)
+        got = _fs_name(st)
+        self.__dict__['got'] = fs if (fs[0] == 'x' and got == 'd0') else got
         self.__dict__['sset'] = 'T'
 
-    ns = {'__new__': __new__, '__getnewargs__': __getnewargs__, '__getstate__': __getstate__, '__setstate__': __setstate__,
-          '_kind': 'opt'}
+    # protocols 2 and 3 pickle cls.__new__ by reference when __getnewargs_ex__ returns keyword arguments
+    __new__.__qualname__, __new__.__module__ = name + '.__new__', __name__
+    ns = {'__new__': __new__, '__getstate__': __getstate__, '__setstate__': __setstate__, '_kind': 'opt'}
+    if fs[0] == 'x':
+        ns['__getnewargs_ex__'] = __getnewargs_ex__
+    else:
+        ns['__getnewargs__'] = __getnewargs__
     bases = (rp.SupportRemoteGetState,) if marker else (object,)
     return _bind(type(name, bases, ns))
 
@@ -143,7 +185,10 @@ def opt_class(marker, ss, ds, seen, fs='no', sub=False):
             if key[3] and not marker:
                 x = object.__new__(c)
                 x.val, x.w = 'v0', 'w0'
-                _rp().dumps(x)          # "pickled remotely earlier in this process"
+                try:
+                    _rp().dumps(x)      # "pickled remotely earlier in this process"
+                except BaseException:   # noqa  (a raising dumps is an outcome of the scenario's own dump, not of the harness)
+                    pass
             _OPT_CACHE[key] = c
         return c
     return _opt_class(marker, ss, ds, seen, fs)
@@ -161,7 +206,10 @@ def _opt_class(marker, ss, ds, seen, fs='no'):
         if key[3] and not marker:
             x = object.__new__(c)
             x.val, x.w = 'v0', 'w0'
-            _rp().dumps(x)              # "pickled remotely earlier in this process"
+            try:
+                _rp().dumps(x)          # "pickled remotely earlier in this process"
+            except BaseException:       # noqa  (a raising dumps is an outcome of the scenario's own dump, not of the harness)
+                pass
         _OPT_CACHE[key] = c
     return c
 
@@ -506,7 +554,7 @@ def _one_load(rp, data, L, scn, kinds, nest=None):
         return 'T' if mine_p == pristine else 'F'
     try:
         try:
-            top = rp.loads(data, mine_p) if paths else rp.loads(data)
+            top = rp_loads(rp, scn, data, mine_p if paths else None)
         finally:
             _CTL.raise_at = None
             _CTL.hook = None
@@ -540,7 +588,7 @@ def run_graph(scn, nest_at=None):
     op = scn['op']
     try:
         if op == 'rp':
-            data = rp.dumps(top, protocol=proto, remote=scn['remote'])
+            data = rp_dumps(rp, scn, top, protocol=proto, remote=scn['remote'])
         elif op == 'pickle':
             data = pickle.dumps(top, protocol=proto)
         elif op == 'mp':
@@ -646,7 +694,7 @@ def run_graph(scn, nest_at=None):
     plain = [k for k, L in enumerate(loads) if not L['patch'] and L['fail'] == 'none']
     if plain and plain[-1] == len(loads) - 1:
         try:
-            t = pickle.loads(pickle.dumps(top, protocol=proto))
+            t = std_roundtrip(scn, top, proto)[1]
             std = ('ok',) + project(t, scn, kinds)
         except BaseException as e:  # noqa
             std = ('raised',)
@@ -801,9 +849,9 @@ def run_cls(scn):
     res = None
     try:
         if op == 'rp':
-            data = rp.dumps(x, protocol=proto, remote=scn['remote'])
+            data = rp_dumps(rp, scn, x, protocol=proto, remote=scn['remote'])
             glog = [ev[2] for ev in LOG[start:] if ev[0] == 'gs']
-            res = rp.loads(data)
+            res = rp_loads(rp, scn, data)
         elif op == 'pickle':
             data = pickle.dumps(x, protocol=proto)
             glog = [ev[2] for ev in LOG[start:] if ev[0] == 'gs']
@@ -830,7 +878,7 @@ def run_cls(scn):
     obs['gslog'] = glog
     if op == 'rp':
         try:
-            std = pickle.loads(pickle.dumps(inst(), protocol=proto))
+            std = std_roundtrip(scn, inst(), proto)[1]
         except BaseException:  # noqa
             std = None
         if res is None or std is None:
@@ -953,6 +1001,20 @@ def _menu():
             def __getnewargs__(self):
                 return (self.key,)
 
+        class NewArgsEx:
+            """not opt-in: re-created through __getnewargs_ex__ (mode: args only / args and kwargs / kwargs only)"""
+
+            def __new__(cls, *args, **kwargs):
+                o = object.__new__(cls)
+                o.made_with = (len(args), sorted(kwargs))
+                return o
+
+            def __init__(self, mode='args'):
+                self.mode = mode
+
+            def __getnewargs_ex__(self):
+                return {'args': ((1, 2), {}), 'kwargs': ((1,), {'b': 2}), 'kwonly': ((), {'a': 1, 'b': 2})}[self.mode]
+
         class LateReg:
             """non-opt-in class whose reducer is registered with copyreg.pickle() at run time"""
 
@@ -966,7 +1028,7 @@ def _menu():
         def a_function(x):
             return x
 
-        for c in (Colour, Perm, DC, FDC, SDC, NT, MyError, ABCBase, GNA, Slots, Red, GS, KWGS, Holder, Interned, LateReg):
+        for c in (Colour, Perm, DC, FDC, SDC, NT, MyError, ABCBase, GNA, Slots, Red, GS, KWGS, Holder, Interned, LateReg, NewArgsEx):
             _bind(c)
         # registered AFTER pyworkers.remote_pickle has been imported (run_leaf imports it first)
         import copyreg
@@ -1005,7 +1067,8 @@ def _menu():
         'simplenamespace': lambda: types.SimpleNamespace(a=1, b=[2]), 'getnewargs': lambda: M.GNA(1, 2),
         'slots_class': lambda: M.Slots(1, 'q'), 'reduce_class': lambda: M.Red(9), 'getstate_class': lambda: M.GS(),
         'kwgetstate_class': lambda: M.KWGS(), 'array': lambda: array.array('i', [1, 2, 3]),
-        'interned_newargs': lambda: M.Interned('k1'), 'late_class': lambda: M.LateReg(5),
+        'interned_newargs': lambda: M.Interned('k1'), 'newargs_ex_args': lambda: M.NewArgsEx('args'),
+        'newargs_ex_kwargs': lambda: M.NewArgsEx('kwargs'), 'newargs_ex_kwonly': lambda: M.NewArgsEx('kwonly'), 'late_class': lambda: M.LateReg(5),
         'code_type': lambda: M.a_function.__code__,
         're_pattern': lambda: re.compile(r'a+b', re.I), 're_pattern_bytes': lambda: re.compile(br'\d+'),
         'union_type': lambda: int | str, 'complex': lambda: 1 + 2j,
@@ -1154,16 +1217,16 @@ def run_leaf(scn):
             pass
     mp = sp = None
     try:
-        data = rp.dumps(g, protocol=proto, remote=scn['remote'])
+        data = rp_dumps(rp, scn, g, protocol=proto, remote=scn['remote'])
         mp = stream_proto(data)
-        mine = ('ok', canon(rp.loads(data)))
+        mine = ('ok', canon(rp_loads(rp, scn, data)))
     except BaseException as e:  # noqa
         mine = ('raised', type(e).__name__)
         obs['outcome'] = 'raised:' + type(e).__name__
     try:
-        data = pickle.dumps(g, protocol=proto)
+        data, back = std_roundtrip(scn, g, proto)
         sp = stream_proto(data)
-        std = ('ok', canon(pickle.loads(data)))
+        std = ('ok', canon(back))
     except BaseException as e:  # noqa
         std = ('raised', type(e).__name__)
     obs['proto_same'] = 'T' if mp == sp else 'F'
